@@ -10,24 +10,43 @@ TRUSTED_BASE = [
     "Main.lean / KtVerif/Driver.lean glue (hex decoding, printing)",
 ]
 
+import os, re
+
+LEAN_DIR = os.path.join(os.path.dirname(os.path.abspath(__file__)), "..", "lean")
+
+
+def props_theorems(pid):
+    """every `theorem` of KtVerif/Props/<pid>.lean (namespace KT) is an obligation of <pid>"""
+    path = os.path.join(LEAN_DIR, "KtVerif", "Props", pid + ".lean")
+    out = []
+    if os.path.exists(path):
+        for line in open(path):
+            m = re.match(r"theorem\s+([A-Za-z0-9_'.]+)", line)
+            if m:
+                out.append(("KtVerif.Props." + pid, "KT." + m.group(1)))
+    return out
+
+
+def T(mod, names):
+    return [(mod, "KT." + n) for n in names]
+
+
 TIE_KMER = [("KtVerif.Tie.Tables", "KT.Tie.nt4_kmer_table_eq_spec"), ("KtVerif.Tie.Tables", "KT.Tie.rev_mask_eq_three")]
 TIE_MIN = [("KtVerif.Tie.Tables", "KT.Tie.nt4_min_table_eq_spec")]
 TIE_KMIN = [("KtVerif.Tie.Tables", "KT.Tie.nt4_kmin_table_eq_spec")]
 TIE_LETTERS = [("KtVerif.Tie.Tables", "KT.Tie.letters_eq_spec")]
+C01_CORE = T("KtVerif.Props.C01", ["kmerGen_eq_spec"])
 
 PROPS = {
     "C01": {
-        "theorems": TIE_KMER,
+        "theorems": props_theorems("C01") + TIE_KMER,
         "assumptions": ["raw bytes 0x00-0x03 are outside the property (informational stream)"],
         "partial": [],
     },
-    "C02": {"theorems": TIE_KMER + TIE_LETTERS, "partial": []},
-    "C03": {"theorems": [("KtVerif.Props.C03", "KT." + t) for t in [
-        "mem_canonList", "canonList_sorted", "canon_min_mem", "minMerVec_eq_canonList", "posKmer_eq_canonList",
-        "kcount_eq", "posMap_size", "posMap_rank", "posMap_noncanon", "posMap_lt_kcount", "kcount_formula",
-        "header_eq_spec", "decodeSpec_lex_mono"]] + TIE_LETTERS, "partial": []},
-    "C09": {"theorems": TIE_MIN, "partial": []},
-    "C18": {"theorems": TIE_KMIN + TIE_MIN, "partial": []},
+    "C02": {"theorems": props_theorems("C02") + C01_CORE + TIE_KMER + TIE_LETTERS, "partial": []},
+    "C03": {"theorems": props_theorems("C03") + TIE_LETTERS, "partial": []},
+    "C09": {"theorems": props_theorems("C09") + TIE_MIN, "partial": []},
+    "C18": {"theorems": props_theorems("C18") + TIE_KMIN + TIE_MIN, "partial": []},
 }
 
 HOOK_COMMITS = ["2bee093", "c72f01b", "6f8e937"]
